@@ -1,6 +1,6 @@
 import PrysmVerif.Generated.C16
 import PrysmVerif.Lemmas.C16Expose
-import PrysmVerif.Lemmas.C16Bin
+import PrysmVerif.Lemmas.C16BinL
 import PrysmVerif.Lemmas.C16Safe
 import Mathlib.Data.Rat.Floor
 /-!
@@ -157,9 +157,14 @@ theorem dn_saturates (bits : Int) (h1 : 1 ≤ bits) (h32 : bits ≤ 32) (img t d
 
 end expose
 
-/-! ## binning and tiling (every number of axes `d`, every shape `s`, every factor tuple `f`) -/
+/-! ## binning and tiling (every number of axes, every shape, every factor list)
+
+Stated over `Model.C16.totL / binL / tileL`: the functions that `binND` / `tileND`, i.e. the code the driver executes
+and the correspondence compares with `bindown` / `tile`, read through the row-major index maps
+(`binND_is_binL`).  Shapes are lists of axis lengths: `os` the binned shape, `fs` the factors, `os ⊙ fs` the full shape.
+The scale factors are the generated `tileScaleSum`, `tileScaleAvg`. -/
 section bin
-variable {d : ℕ} (s f : Fin d → ℕ) {K : Type} [Field K]
+variable {K : Type} [Field K]
 
 /-- the reshape in `bindown` is valid and `tile` restores the length: `(s // f)·f = s` when `f ∣ s` -/
 theorem bin_tile_lengths (s f : Int) (hf : 0 < f) (hd : f ∣ s) :
@@ -184,43 +189,80 @@ theorem bin_block_bijection (s f i j k : ℕ) (hi : i < s) (hj : j < f) (hk : k 
     binSrc f i j < s * f ∧ tileSrc f (binSrc f i j) = i ∧ binSrc f i j % f = j ∧
     tileSrc f k < s ∧ binSrc f (tileSrc f k) (k % f) = k := by
   have hf : 0 < f := by omega
-  refine ⟨binSrc_lt hi hj, ?_, ?_, tileSrc_lt hk, ?_⟩
+  refine ⟨?_, ?_, ?_, ?_, ?_⟩
+  · simp only [binSrc]
+    calc i * f + j < i * f + f := by omega
+      _ = (i + 1) * f := by ring
+      _ ≤ s * f := Nat.mul_le_mul_right f hi
   · simp only [binSrc, tileSrc]; rw [Nat.add_comm, Nat.add_mul_div_right _ _ hf, Nat.div_eq_of_lt hj, Nat.zero_add]
   · simp only [binSrc]; rw [Nat.add_comm, Nat.add_mul_mod_self_right, Nat.mod_eq_of_lt hj]
+  · simp only [tileSrc]; exact Nat.div_lt_of_lt_mul (by rwa [Nat.mul_comm] at hk)
   · simp only [binSrc, tileSrc]; exact Nat.div_add_mod' _ _
 
-theorem tile_scale_eq (y : Out s → K) (k : In s f) :
-    tileAvg s f y k * tileScaleSum (blockSize f : K) = tileSum s f y k := by
-  simp only [tileSum, tileAvg, tileScaleSum, Num.ofInt, Int.cast_one]
+/-- **bridge**: what the driver computes (`binND`, `tileND` on flat row-major arrays) is `binL` / `tileL` read through
+`ravel` / `unravel`, divided by `Πf` in average mode / multiplied by `1/Πf` with sum scaling -/
+theorem binND_is_binL [Inhabited K] (shape f : List ℕ) (x : Array K) (t : ℕ) :
+    (∀ ht : t < (binND shape f x false).size,
+      (binND shape f x false)[t] = binL f (fun k => x[ravel shape k]!) (unravel (List.zipWith (· / ·) shape f) t)) ∧
+    (∀ ht : t < (binND shape f x true).size,
+      (binND shape f x true)[t]
+        = binL f (fun k => x[ravel shape k]!) (unravel (List.zipWith (· / ·) shape f) t) / (blockSize f : K)) ∧
+    (∀ ht : t < (tileND shape f x false).size,
+      (tileND shape f x false)[t] = tileL f (fun i => x[ravel shape i]!) (unravel (List.zipWith (· * ·) shape f) t)) ∧
+    (∀ ht : t < (tileND shape f x true).size,
+      (tileND shape f x true)[t]
+        = tileL f (fun i => x[ravel shape i]!) (unravel (List.zipWith (· * ·) shape f) t) * (1 / (blockSize f : K))) :=
+  ⟨binND_get shape f x t, binND_avg_get shape f x t, tileND_get shape f x t, tileND_sum_get shape f x t⟩
+
+theorem tileScaleSum_eq (pf : K) : (tileScaleSum pf : K) = 1 / pf := by
+  simp only [tileScaleSum, Num.ofInt, Int.cast_one]
+
+theorem tileScaleAvg_eq : (tileScaleAvg : K) = 1 := by
+  simp only [tileScaleAvg, Num.ofInt, Int.cast_one]
 
 /-- binning in sum mode conserves the total -/
-theorem bin_sum_conserves (x : In s f → K) : ∑ i, binSum s f x i = ∑ k, x k := binSum_total s f x
+theorem bin_sum_conserves (os fs : List ℕ) (hl : os.length = fs.length) (x : List ℕ → K) :
+    totL os (binL fs x) = totL (List.zipWith (· * ·) os fs) x := totL_binL os fs hl x
 
 /-- binning in average mode conserves the level -/
-theorem bin_avg_level (hne : (blockSize f : K) ≠ 0) (c : K) (i : Out s) : binAvg s f (fun _ => c) i = c :=
-  binAvg_const s f hne c i
+theorem bin_avg_level (fs : List ℕ) (hne : (blockSize fs : K) ≠ 0) (c : K) (i : List ℕ) (hi : i.length = fs.length) :
+    binL fs (fun _ => c) i / (blockSize fs : K) = c := by
+  rw [binL_const fs c i hi]; field_simp
 
 /-- tiling with sum scaling (the generated factor `1/Πf`) conserves the total -/
-theorem tile_sum_conserves (hne : (blockSize f : K) ≠ 0) (y : Out s → K) :
-    ∑ k : In s f, tileAvg s f y k * tileScaleSum (blockSize f : K) = ∑ i, y i := by
-  simp_rw [tile_scale_eq]; exact tileSum_total s f hne y
+theorem tile_sum_conserves (os fs : List ℕ) (hl : os.length = fs.length) (hne : (blockSize fs : K) ≠ 0) (y : List ℕ → K) :
+    totL (List.zipWith (· * ·) os fs) (fun k => tileL fs y k * tileScaleSum (blockSize fs : K)) = totL os y := by
+  have h : (fun k => tileL fs y k * tileScaleSum (blockSize fs : K)) = fun k => (1 / (blockSize fs : K)) * tileL fs y k := by
+    funext k; rw [tileScaleSum_eq]; ring
+  rw [h, totL_mul_left, totL_tileL os fs hl]; field_simp
 
-/-- tiling with average scaling (the generated factor 1) conserves the level -/
-theorem tile_avg_level (c : K) (k : In s f) : tileAvg s f (fun _ => c) k * (tileScaleAvg : K) = c := by
-  simp [tileAvg, tileScaleAvg, Num.ofInt]
+/-- tiling with average scaling (the generated factor 1) conserves the level: it copies -/
+theorem tile_avg_level (fs : List ℕ) (c : K) (k : List ℕ) : tileL fs (fun _ => c) k * (tileScaleAvg : K) = c := by
+  rw [tileScaleAvg_eq, mul_one]; rfl
 
 /-- `bindown(avg)` and `tile(sum)` are adjoint; so are `bindown(sum)` and `tile(avg)` -/
-theorem bin_tile_adjoint (x : In s f → K) (y : Out s → K) :
-    (∑ i, y i * binAvg s f x i = ∑ k, (tileAvg s f y k * tileScaleSum (blockSize f : K)) * x k) ∧
-    (∑ i, y i * binSum s f x i = ∑ k, (tileAvg s f y k * (tileScaleAvg : K)) * x k) := by
-  refine ⟨by simp_rw [tile_scale_eq]; exact binAvg_tileSum_adjoint s f x y, ?_⟩
-  rw [binSum_tileAvg_adjoint]
-  simp [tileScaleAvg, Num.ofInt]
+theorem bin_tile_adjoint (os fs : List ℕ) (hl : os.length = fs.length) (x y : List ℕ → K) :
+    (totL os (fun i => y i * (binL fs x i / (blockSize fs : K)))
+      = totL (List.zipWith (· * ·) os fs) (fun k => (tileL fs y k * tileScaleSum (blockSize fs : K)) * x k)) ∧
+    (totL os (fun i => y i * binL fs x i)
+      = totL (List.zipWith (· * ·) os fs) (fun k => (tileL fs y k * (tileScaleAvg : K)) * x k)) := by
+  constructor
+  · have h1 : (fun i => y i * (binL fs x i / (blockSize fs : K))) = fun i => (1 / (blockSize fs : K)) * (y i * binL fs x i) := by
+      funext i; ring
+    have h2 : (fun k => (tileL fs y k * tileScaleSum (blockSize fs : K)) * x k)
+        = fun k => (1 / (blockSize fs : K)) * (tileL fs y k * x k) := by
+      funext k; rw [tileScaleSum_eq]; ring
+    rw [h1, h2, totL_mul_left, totL_mul_left, adjoint_sum_avg os fs hl]
+  · simp only [tileScaleAvg_eq, mul_one]; exact adjoint_sum_avg os fs hl x y
 
 /-- binning undoes tiling in the matching mode -/
-theorem bin_of_tile (hne : (blockSize f : K) ≠ 0) (y : Out s → K) :
-    binAvg s f (tileAvg s f y) = y ∧ binSum s f (tileSum s f y) = y :=
-  ⟨binAvg_tileAvg s f hne y, binSum_tileSum s f hne y⟩
+theorem bin_of_tile (fs : List ℕ) (hne : (blockSize fs : K) ≠ 0) (y : List ℕ → K) (i : List ℕ) (hi : i.length = fs.length) :
+    binL fs (tileL fs y) i / (blockSize fs : K) = y i ∧
+    binL fs (fun k => tileL fs y k * tileScaleSum (blockSize fs : K)) i = y i := by
+  constructor
+  · rw [binL_tileL fs y i hi]; field_simp
+  · have h := binL_tile_mul fs y (fun _ => tileScaleSum (blockSize fs : K)) i hi
+    rw [h, binL_const fs _ i hi, tileScaleSum_eq]; field_simp
 
 end bin
 
@@ -410,7 +452,8 @@ example : dn (K := ℚ) 1000 1 0 1 1 0 100000 1 8 = 255 := by
   · decide
   · rw [show Int.toNat 8 = 8 from rfl]; norm_num
 
-/-- block bijection instance: axis of 12 samples binned by 3 -/
+/-- block bijection instance: axis of 12 samples binned by 3; a 2-axis block sum on ℚ -/
 example : binSrc 3 2 1 = 7 ∧ tileSrc 3 7 = 2 ∧ 7 % 3 = 1 := by decide
+example : binL (K := ℚ) [2, 1] (fun k => (k.headD 0 : ℚ) + 10 * (k.tail.headD 0 : ℚ)) [1, 3] = 65 := by decide +kernel
 
 end C16
